@@ -7,6 +7,11 @@
 // pushes, force_bytes() calls and rollbacks, when force_bytes() returns nothing is forced any more — i.e. its "already done at
 // this length" memo never skips a state it has not examined.
 use super::*;
+// explicit imports: the harness must not depend on which names the real module happens to import
+#[allow(unused_imports)]
+use crate::earley::ParserStats;
+#[allow(unused_imports)]
+use ::toktrie::{TokTrie, TokenId};
 
 #[derive(Debug, Clone, Copy, PartialEq)]
 pub struct MockErr;
